@@ -41,6 +41,12 @@ theorem Sys.step_pres {f : FsCfg} {I : World → Prop} (h : OpsPres f I) (s : Sy
     · rename_i hd _
       have := (hWrite_pres h hd data).run _ hw
       split <;> rename_i heq <;> rw [heq] at this <;> exact this
+  case hwriteString id data =>
+    split
+    · exact hw
+    · rename_i hd _
+      have := (hWrite_pres h hd data).run _ hw
+      split <;> rename_i heq <;> rw [heq] at this <;> exact this
   case hsync id =>
     split
     · exact hw
